@@ -328,6 +328,9 @@ func checkC14(w *World, r *Run) {
 	checkC14PartRows(w, r)
 	checkC14SQL(w, r, ruleSQL)
 	checkC14Share(w, r, ruleShare)
+	ruleGone := r.Rule("transition-deletes-only-unreferenced-source-parts", "F9",
+		"after the metadata swap TransitionObjectStorageClass deletes exactly the parts the metadata store reported as unreferenced — a relocated source part that another object or version still shares stays in its store", 1)
+	checkUnreferencedDefUse(w, r, ruleGone, ".TransitionObjectStorageClass")
 	r.NotCovered("byte identity of relocated parts (the copy loop streams GetPart into PutPart: C15); that configuration maps classes to the intended stores; reads after a store was removed from the configuration")
 }
 
